@@ -152,8 +152,7 @@ CONTRIB = {
         assumptions=[],
     ),
     "C20": dict(
-        harness=["h_posit_san", "h_quire_san", "h_pconv_san", "h_hist_san", "h_ub", "h_threads"],
-        thorough_harness=["h_threads_tsan"],
+        harness=["h_posit_san", "h_quire_san", "h_pconv_san", "h_hist_san", "h_ub", "h_threads", "h_threads_tsan"],
         streams=lambda tier, seed, exes: c20_streams(tier, seed, exes),
         proof_modules=["UVerifProofs.Props.C20"],
         crash_is_violation=True,
@@ -193,6 +192,6 @@ def c20_streams(tier, seed, exes):
     jobs.append(dict(exe=exes["h_hist_san"], args=["400" if tier == "quick" else "20000"], label="ASan+UBSan integer/fixpnt operation histories"))
     jobs.append(dict(exe=exes["h_ub"], args=[], label="UBSan probes of operations known or suspected to leave defined behaviour (forked children)"))
     jobs.append(dict(exe=exes["h_threads"], args=["8", "3000"], label="8 threads x identical programs on distinct objects"))
-    if tier == "thorough" and "h_threads_tsan" in exes:
-        jobs.append(dict(exe=exes["h_threads_tsan"], args=["8", "3000"], label="TSan: 8 threads x identical programs on distinct objects"))
+    if "h_threads_tsan" in exes:
+        jobs.append(dict(exe=exes["h_threads_tsan"], args=["8", "1500" if tier == "quick" else "6000"], label="TSan: 8 threads x identical programs on distinct objects (cold start)"))
     return jobs
